@@ -106,6 +106,25 @@ theorem c09_unions_separated :
 /-- non-vacuity: the table has a union of four model classes (six ordered pairs) -/
 example : ∃ c ∈ classes, ∃ f ∈ c.fields, ∃ u ∈ unionsOf f.ty, (orderedPairs u).length ≥ 6 := by decide +kernel
 
+/-- **Catalogue of leaf coercions** (`_deep_validate`, class branch).  Whenever the fallback accepts a
+primitive value — for every primitive type and EVERY JSON value — it keeps the value or applies
+exactly one of seven coercions: `str(int)`, `str(bool)`, `str(float)`, `int("digits")`, `float(bool)`,
+`float("digits")`, `bool("true"/"1"/"yes"/"on"/…)`.  Nothing else can change a leaf; none of them
+applies to a value that already has the JSON type of the member (F-C09c inputs are exactly the
+inputs of the seven). -/
+theorem c09_leaf_coercions_catalogue (t : Ty) (j : Json) (v : TVal) (h : validatePrim t j = .ok v) :
+    v = .leaf j ∨ ∃ j', v = .leaf j' ∧ Coerced t j j' :=
+  validatePrim_keeps_or_coerces t j v h
+
+/-- A coerced leaf is a fixpoint: validating the coerced value again keeps it (so a value that went
+through the typed view once is stable from then on). -/
+theorem c09_leaf_coercion_idempotent (t : Ty) (j j' : Json) (h : validatePrim t j = .ok (.leaf j')) :
+    validatePrim t j' = .ok (.leaf j') :=
+  validatePrim_idempotent t j j' h
+
+example : Coerced .int (.str "-12") (.int (-12)) ∧ Coerced .str (.int 5) (.str "5") :=
+  ⟨.intOfStr _ _ (by decide), .strOfInt 5⟩
+
 /-- hook names of a class that a backend calls after construction -/
 def calledHooks (calls : List String) (c : Class) : List String := c.hooks.filter (fun h => calls.contains h)
 
